@@ -22,7 +22,7 @@ def b(s):
     return list(s.encode("utf-8"))
 
 
-def arg(id, short=None, long=None, aliases=(), valiases=(), action="", num=None, required=False, glob=False, last=False,
+def arg(id, short=None, long=None, aliases=(), valiases=(), saliases=(), action="", num=None, required=False, glob=False, last=False,
         tva=False, hyphen=False, negnum=False, req_eq=False, delim=None, term=None, defaults=(), missing=(),
         default_ifs=(), env=None, exclusive=False, conflicts=(), overrides=(), requires=(), requires_ifs=(),
         req_if_eq=(), req_if_eq_all=(), req_unless=(), req_unless_all=(), ignore_case=False, vp=None, index=0,
@@ -31,7 +31,8 @@ def arg(id, short=None, long=None, aliases=(), valiases=(), action="", num=None,
     a = {
         "id": id, "idb": b(id), "short": b(short) if short else [], "long": b(long) if long else [],
         # aliases: every alias the parser answers to; valiases: the visible ones among them (Arg::visible_alias)
-        "aliases": [b(x) for x in aliases] + [b(x) for x in valiases], "valiases": [b(x) for x in valiases], "action": action,
+        "aliases": [b(x) for x in aliases] + [b(x) for x in valiases], "valiases": [b(x) for x in valiases],
+        "saliases": [b(x) for x in saliases], "action": action,
         "nset": num is not None, "nmin": num[0] if num else 0, "nmax": (INF if num[1] is None else num[1]) if num else 0,
         "required": required, "global": glob, "last": last, "tva": tva, "hyphen": hyphen, "negnum": negnum,
         "req_eq": req_eq, "delim": ord(delim) if delim else 0, "term": b(term) if term else [],
@@ -107,6 +108,8 @@ def spellings(a, infer=False):
         if infer and len(a["long"]) > 1:
             out.append(b("--") + a["long"][:-1])
             out.append(b("--") + a["long"][:1])
+    for sa in a.get("saliases", []):
+        out.append([45] + sa)
     if a["short"]:
         out.append([45] + a["short"])
         if takes:
@@ -258,6 +261,10 @@ def f_core():
     add("visible-alias-option", cmd("p", [arg("mode", "m", "mode", valiases=["kind"], aliases=["md"]), arg("verbose", None, "verbose", valiases=["chatty"], action="SetTrue")],
                                     subs=[cmd("build", [arg("release", None, "release", action="SetTrue")])]),
         extra=["--kind", "build", "--kind=build", "--chatty", "--md", "--ki"])
+    add("short-aliases", cmd("p", [arg("mode", "m", "mode", saliases=["k"]), arg("verbose", "v", "verbose", saliases=["c"], action="SetTrue"),
+                                   arg("only", None, "only", saliases=["q"], action="SetTrue")],
+                             subs=[cmd("build", [arg("release", "r", action="SetTrue")])]),
+        extra=["-k", "-kx", "-k=x", "-ck", "-c", "-q", "build", "-vc"])
     add("hidden-alias-vs-visible", cmd("p", [arg("colour", "c", "colour", aliases=["output-colour"], action="SetTrue"), arg("output", "o", "output")]),
         extra=["--out", "--output-c", "--col"])
     add("infer-long", cmd("p", [arg("v1", long="verbose", action="SetTrue"), arg("v2", long="version2", action="SetTrue"),
